@@ -35,12 +35,15 @@ Inductive stmt : Type :=
 | LAppendRef (x y : name) (i : Z)           (* x.append(y[i]): __redu_list_append(x, __redu_list_get(y, i)) - `value` is a
                                                reference into y's buffer; y may be x *)
 | LRemoveRef (x y : name) (i : Z)           (* x.remove(y[i]) *)
-| LTuple (xs : list name) (rs : list rhs)   (* x1, .., xn = r1, .., rn : struct-copy temporaries __tmp_assign_k = r_k (left to
-                                               right), then PLAIN assignments x_k = __tmp_assign_k (pointer copies, nothing is
-                                               freed) resp. declarations of the names not yet declared (parser.py 1930-2018) *)
-| LAssignRet (x y : name).                  (* x = ident(y) with  def ident(xs): return xs  - x declared:
-                                               __redu_list_assign(x, ident(y)), the source is a temporary struct copy of y
-                                               (so &dest != &source even when y is x);  else  __redu_list<T> x = ident(y); *)
+| LTuple (xs : list name) (rs : list rhs)   (* x1, .., xn = r1, .., rn : the parser emits declarations of temporaries
+                                               __redu_list<T> __tmp_assign_k = r_k; (left to right; copy constructor), then the
+                                               assignments x_k = __tmp_assign_k; (copy assignment); the temporaries are
+                                               destroyed at the closing brace: [tuple_block] (parser.py _handle_assignment_ast) *)
+| LAssignRet (x y : name)                   (* x = ident(y) with  def ident(xs): return xs  - x declared:
+                                               __redu_list_assign(x, ident(y)), the source is a temporary that owns a deep
+                                               copy of y;  else  x = ident(y); adopts it *)
+| LDrop (x : name).                         (* the C++ variable x goes out of scope: ~__redu_list().  No source statement; the
+                                               last step of a tuple assignment (its __tmp_assign_k temporaries) *)
 
 (* ------------------------------------------------------------------ environments *)
 Definition env (A : Type) := list (name * A).
@@ -87,56 +90,69 @@ Definition f_declare (in_loop : bool) (st : fstate) (h : heap) (x : name) (l : l
 Definition comp_list (h : heap) (c : comp) : res (heap * lval) :=
   list_from_range h (c_start c) (c_stop c) (c_step c) (comp_fun c).
 
-(* the temporaries of a tuple assignment, left to right *)
-Fixpoint f_rhs (st : fstate) (h : heap) (rs : list rhs) : res (heap * list lval) :=
+(* remove a variable from an environment (a temporary going out of scope) *)
+Fixpoint env_remove {A : Type} (x : name) (e : env A) : env A :=
+  match e with
+  | [] => []
+  | (y, a) :: r => if Z.eqb x y then r else (y, a) :: env_remove x r
+  end.
+
+(* __tmp_assign_k : the temporaries of a tuple assignment are named C++ variables; script names are >= 0 *)
+Definition tmp_name (k : nat) : name := (- 1 - Z.of_nat k)%Z.
+
+(* what the parser emits for x1, .., xn = r1, .., rn *)
+Fixpoint tuple_tmps (k : nat) (rs : list rhs) : list stmt :=
   match rs with
-  | [] => Safe (h, [])
-  | RVar y :: r =>
-      do a <- f_rhs st h r; let '(h1, ts) := a in Safe (h1, f_lookup st y :: ts)
-  | RLit items :: r =>
-      do m <- list_make h items; let '(h0, t) := m in
-      do a <- f_rhs st h0 r; let '(h1, ts) := a in Safe (h1, t :: ts)
+  | [] => []
+  | RVar y :: r => LAssignVar (tmp_name k) y :: tuple_tmps (S k) r       (* __redu_list<T> __tmp_assign_k = y;  *)
+  | RLit items :: r => LDeclLit (tmp_name k) items :: tuple_tmps (S k) r (* __redu_list<T> __tmp_assign_k = __redu_make_list<T>(..); *)
   end.
 
-(* x_k = __tmp_assign_k;  one after the other *)
-Fixpoint f_tuple_store (in_loop : bool) (st : fstate) (xs : list name) (ts : list lval) : fstate :=
-  match xs, ts with
-  | x :: xr, t :: tr =>
-      let st1 := if f_declared st x then f_store st (f_heap st) x t
-                 else f_declare in_loop st (f_heap st) x t in
-      f_tuple_store in_loop st1 xr tr
-  | _, _ => st
+Fixpoint tuple_stores (k : nat) (xs : list name) : list stmt :=
+  match xs with
+  | [] => []
+  | x :: r => LAssignVar x (tmp_name k) :: tuple_stores (S k) r           (* x = __tmp_assign_k; *)
   end.
 
-(* one statement; the second component is what it prints *)
-Definition f_exec (in_loop : bool) (st : fstate) (s : stmt) : res (fstate * list Z) :=
+Fixpoint tuple_drops (k n : nat) : list stmt :=
+  match n with
+  | O => []
+  | S n' => LDrop (tmp_name k) :: tuple_drops (S k) n'
+  end.
+
+Definition tuple_block (xs : list name) (rs : list rhs) : list stmt :=
+  tuple_tmps 0 rs ++ tuple_stores 0 xs ++ tuple_drops 0 (length rs).
+
+(* one statement; the second component is what it prints.  Since the main-loop variables are globals
+   (Reduino 69cce40) every list name is a global; [in_loop] no longer changes where a name lives. *)
+Definition f_exec1 (in_loop : bool) (st : fstate) (s : stmt) : res (fstate * list Z) :=
   let h := f_heap st in
   match s with
   | LDeclLit x items =>
       do r <- list_make h items; let '(h1, l) := r in
       Safe (f_declare false st h1 x l, [])
-  | LLocalDeclLit x items =>
-      do r <- list_make h items; let '(h1, l) := r in
-      Safe (f_declare true st h1 x l, [])
   | LDeclComp x c =>
       do r <- comp_list h c; let '(h1, l) := r in
-      Safe (f_declare false st h1 x l, [])          (* x = <returned struct>: pointer copy *)
-  | LLocalDeclComp x c =>
-      do r <- comp_list h c; let '(h1, l) := r in
-      Safe (f_declare true st h1 x l, [])
-  | LAssignLit x items =>
+      Safe (f_declare false st h1 x l, [])          (* x = <returned temporary>: the buffer is adopted *)
+  | LLocalDeclLit x items =>
+      (* global `__redu_list<T> x;` + `x = __redu_make_list<T>(..);` in every pass: move assignment *)
       do r <- list_make h items; let '(h1, tmp) := r in
-      do r2 <- list_assign h1 (f_lookup st x) tmp false; let '(h2, l) := r2 in
-      Safe (f_store st h2 x l, [])                  (* the temporary is never freed *)
-  | LAssignComp x c =>
+      do r2 <- list_move_assign h1 (f_lookup st x) tmp; let '(h2, l) := r2 in
+      Safe ((if f_declared st x then f_store st h2 x l else f_declare false st h2 x l), [])
+  | LLocalDeclComp x c =>
       do r <- comp_list h c; let '(h1, tmp) := r in
-      do r2 <- list_assign h1 (f_lookup st x) tmp false; let '(h2, l) := r2 in
-      Safe (f_store st h2 x l, [])
+      do r2 <- list_move_assign h1 (f_lookup st x) tmp; let '(h2, l) := r2 in
+      Safe ((if f_declared st x then f_store st h2 x l else f_declare false st h2 x l), [])
+  | LAssignLit _ _ | LAssignComp _ _ | LCallAppend _ _ | LTuple _ _ =>
+      Safe (st, [])                                 (* compound: see [desugar] / [f_exec] *)
   | LAssignVar x y =>
       if f_declared st x then
         do r <- list_assign h (f_lookup st x) (f_lookup st y) (Z.eqb x y); let '(h1, l) := r in
         Safe (f_store st h1 x l, [])
-      else Safe (f_declare in_loop st h x (f_lookup st y), [])   (* plain struct copy *)
+      else
+        (* `x = y;` into the freshly declared (empty) global x: a deep copy *)
+        do r <- list_copy h (f_lookup st y); let '(h1, l) := r in
+        Safe (f_declare false st h1 x l, [])
   | LAppend x v =>
       do r <- list_append h (f_lookup st x) v; let '(h1, l) := r in
       Safe (f_store st h1 x l, [])
@@ -150,28 +166,62 @@ Definition f_exec (in_loop : bool) (st : fstate) (s : stmt) : res (fstate * list
       do h1 <- list_set h (f_lookup st x) i v;
       Safe (mkf h1 (f_glob st) (f_loc st), [])
   | LCallGet x i =>
-      let xs := f_lookup st x in                     (* parameter: struct copy *)
+      (* the by-value parameter is a deep copy the callee destroys at its return; the callee only reads it, the copy
+         holds the cells of x: the model reads them where they are (allocation and release of the copy cancel) *)
+      let xs := f_lookup st x in
       do v <- list_get h xs i;
       Safe (st, [v])
-  | LCallAppend x v =>
-      let xs := f_lookup st x in
-      do r <- list_append h xs v; let '(h1, xs1) := r in
-      do w <- list_get h1 xs1 0;
-      Safe (mkf h1 (f_glob st) (f_loc st), [w])      (* xs1 dies without freeing; x keeps its old pointer *)
   | LAppendRef x y i =>
       do r <- list_append_a h (f_lookup st x) (ARef (f_lookup st y) i); let '(h1, l) := r in
       Safe (f_store st h1 x l, [])
   | LRemoveRef x y i =>
       do r <- list_remove_a h (f_lookup st x) (ARef (f_lookup st y) i); let '(h1, l) := r in
       Safe (f_store st h1 x l, [])
-  | LTuple xs rs =>
-      do r <- f_rhs st h rs; let '(h1, ts) := r in
-      Safe (f_tuple_store in_loop (mkf h1 (f_glob st) (f_loc st)) xs ts, [])
   | LAssignRet x y =>
+      (* ident(y): the parameter is a deep copy of y, the result is moved out of it into a temporary that
+         __redu_list_assign copies once more and that is destroyed at the end of the statement; allocation and release of
+         that temporary cancel and it holds the cells of y: the model copies them from where they are.  The source is
+         never the same C++ object as x (same = false), also for x = ident(x) *)
       if f_declared st x then
         do r <- list_assign h (f_lookup st x) (f_lookup st y) false; let '(h1, l) := r in
         Safe (f_store st h1 x l, [])
-      else Safe (f_declare in_loop st h x (f_lookup st y), [])
+      else
+        do r <- list_copy h (f_lookup st y); let '(h1, l) := r in
+        Safe (f_declare false st h1 x l, [])
+  | LDrop x =>
+      do h1 <- list_destroy h (f_lookup st x);
+      Safe (mkf h1 (env_remove x (f_glob st)) (f_loc st), [])
+  end.
+
+Fixpoint f_block1 (in_loop : bool) (st : fstate) (ss : list stmt) : res (fstate * list Z) :=
+  match ss with
+  | [] => Safe (st, [])
+  | s :: r =>
+      do a <- f_exec1 in_loop st s; let '(st1, o1) := a in
+      do b <- f_block1 in_loop st1 r; let '(st2, o2) := b in
+      Safe (st2, o1 ++ o2)
+  end.
+
+(* Statements that involve a C++ temporary or a by-value parameter run as the block of simple statements the compiler
+   makes of them - every temporary / parameter is a (named) variable with a copy constructor and a destructor:
+     x = [..]  (x declared)   __redu_list_assign(x, __redu_make_list<T>(..)):  T t = make(..); x = t; ~t
+     x = [.. for ..]          likewise
+     r = g(x, v)              def g(xs, v): xs.append(v); return xs[0]  -  T xs = x; xs.append(v); xs[0]; ~xs
+     x1, .., xn = r1, .., rn  [tuple_block] *)
+Definition desugar (s : stmt) : option (list stmt) :=
+  let t := tmp_name 0 in
+  match s with
+  | LAssignLit x items => Some [LDeclLit t items; LAssignVar x t; LDrop t]
+  | LAssignComp x c => Some [LDeclComp t c; LAssignVar x t; LDrop t]
+  | LCallAppend x v => Some [LAssignVar t x; LAppend t v; LGet t 0; LDrop t]
+  | LTuple xs rs => Some (tuple_block xs rs)
+  | _ => None
+  end.
+
+Definition f_exec (in_loop : bool) (st : fstate) (s : stmt) : res (fstate * list Z) :=
+  match desugar s with
+  | Some b => f_block1 in_loop st b
+  | None => f_exec1 in_loop st s
   end.
 
 Fixpoint f_block (in_loop : bool) (st : fstate) (ss : list stmt) : res (fstate * list Z) :=
@@ -185,7 +235,7 @@ Fixpoint f_block (in_loop : bool) (st : fstate) (ss : list stmt) : res (fstate *
 
 Definition run_setup (setup : list stmt) : res (fstate * list Z) := f_block false f_init setup.
 
-(* one pass of loop(): the locals die at the closing brace WITHOUT freeing anything *)
+(* one pass of loop(): no list is a local of loop() any more ([f_loc] stays empty) *)
 Definition run_pass (body : list stmt) (st : fstate) : res (fstate * list Z) :=
   do a <- f_block true st body; let '(st1, o) := a in
   Safe (mkf (f_heap st1) (f_glob st1) [], o).
@@ -318,6 +368,7 @@ Definition p_exec (in_loop : bool) (st : pstate) (s : stmt) : pres (pstate * lis
       pdo o <- p_ref st x;
       let cs := p_obj st o ++ [v] in
       POk (mkp (upd (p_objs st) o cs) (p_glob st) (p_loc st), [nth 0 cs 0%Z])
+  | LDrop _ => POk (st, [])                       (* no source statement *)
   end.
 
 Fixpoint p_block (in_loop : bool) (st : pstate) (ss : list stmt) : pres (pstate * list Z) :=
@@ -393,7 +444,6 @@ Definition use_ok (decl : list name) (s : stmt) : bool :=
   | LAppend x _ | LRemove x _ | LGet x _ | LSet x _ _ | LCallGet x _ => existsb (Z.eqb x) decl
   | LAssignVar x y => Z.eqb x y && existsb (Z.eqb x) decl
   | LAppendRef x y _ | LRemoveRef x y _ => existsb (Z.eqb x) decl && existsb (Z.eqb y) decl
-  | LTuple xs rs => tuple_ok decl xs rs
   | _ => false
   end.
 
@@ -411,6 +461,60 @@ Fixpoint setup_ok (decl : list name) (ss : list stmt) : option (list name) :=
 Definition single_owner (setup body : list stmt) : bool :=
   match setup_ok [] setup with
   | Some decl => forallb (use_ok decl) body
+  | None => false
+  end.
+
+(* ------------------------------------------------------------------ the guard of the value-semantics theorem *)
+(* [value_ok]: every name a statement uses is declared when it runs (CPython: no NameError), a first declaration
+   `x = [..]` in front of the loop declares a new name.  No other condition: aliases `x = y`, re-assignment, lists first
+   assigned in the main loop, by-value parameters the callee mutates, lists returned by functions, any tuple
+   assignment.  [decl] is the list of the declared names, in declaration order. *)
+Definition inb (x : name) (decl : list name) : bool := existsb (Z.eqb x) decl.
+Definition add1 (decl : list name) (x : name) : list name := if inb x decl then decl else decl ++ [x].
+Fixpoint remove_name (x : name) (decl : list name) : list name :=
+  match decl with
+  | [] => []
+  | y :: r => if Z.eqb x y then r else y :: remove_name x r
+  end.
+
+Definition vs_ok1 (decl : list name) (s : stmt) : option (list name) :=
+  match s with
+  | LDeclLit x _ | LDeclComp x _ => if inb x decl then None else Some (decl ++ [x])
+  | LLocalDeclLit x _ | LLocalDeclComp x _ => Some (add1 decl x)
+  | LAppend x _ | LRemove x _ | LGet x _ | LSet x _ _ | LCallGet x _ => if inb x decl then Some decl else None
+  | LAssignVar x y | LAssignRet x y => if inb y decl then Some (add1 decl x) else None
+  | LAppendRef x y _ | LRemoveRef x y _ => if inb x decl && inb y decl then Some decl else None
+  | LDrop x => if inb x decl then Some (remove_name x decl) else None
+  | _ => None
+  end.
+
+Fixpoint vs_block1 (decl : list name) (ss : list stmt) : option (list name) :=
+  match ss with
+  | [] => Some decl
+  | s :: r => match vs_ok1 decl s with Some d => vs_block1 d r | None => None end
+  end.
+
+Definition vs_ok (decl : list name) (s : stmt) : option (list name) :=
+  match desugar s with
+  | Some b => vs_block1 decl b
+  | None => vs_ok1 decl s
+  end.
+
+Fixpoint vs_block (decl : list name) (ss : list stmt) : option (list name) :=
+  match ss with
+  | [] => Some decl
+  | s :: r => match vs_ok decl s with Some d => vs_block d r | None => None end
+  end.
+
+Fixpoint vs_seq (decl : list name) (bodies : list (list stmt)) : bool :=
+  match bodies with
+  | [] => true
+  | b :: r => match vs_block decl b with Some d => vs_seq d r | None => false end
+  end.
+
+Definition value_ok (setup : list stmt) (bodies : list (list stmt)) : bool :=
+  match vs_block [] setup with
+  | Some d => vs_seq d bodies
   | None => false
   end.
 
